@@ -6,14 +6,14 @@ ID = 'C10'
 LEVEL = 'exploration'
 RULE = ('cover problems as in C09 (all predicates over the grids of <= 8 points except 0..7 and -2..1x0..1 in the quick tier, '
         'a spread sample of 128 of each 16-point grid and EVERY cyclic-core '
-        'instance over four 0..1 variables; thorough: all 65535 of each); cover_enum.minimize must '
+        'instance over four 0..1 variables, and a twelfth (thorough: all) of the 32-point branch-and-bound corpus of C09; thorough: all 65535 of each); cover_enum.minimize must '
         'terminate without error and its set of BDDs, read out to a set of '
         'sets of boxes, must EQUAL the set of all minimum-cardinality prime '
         'covers found by exhaustive set-cover search; contains the cover of '
         'cover.minimize. non-trivial = more than one minimum cover exists; '
         'distinct = (grid, f, care, back end)')
 ASSUMPTIONS = c09.ASSUMPTIONS
-CASE_TIMEOUT = 120
+CASE_TIMEOUT = 600
 EXTRA = [
     dict(grid='b4', f=38840, care=65535, care_name='TRUE', backend='cudd'),
 ]
@@ -21,10 +21,22 @@ EXTRA = [
 
 def shards(tier, seed):
     if tier == 'thorough':
-        return c09.shards(tier, seed)
-    return c09.shards(tier, seed, spread=128, cyclic_grids=['b4'],
-                      small=['b1', 'b2', 'b3', 'g4', 's4', 'n4', 'g42', 'n42'],
-                      large=320)
+        # a quarter of C09's seed-indexed 32-point instances: the
+        # enumeration takes up to 30 CPU-seconds on one of them
+        return c09.shards(tier, seed, large=6000)
+    out = c09.shards(tier, seed, spread=128, cyclic_grids=['b4'],
+                     small=['b1', 'b2', 'b3', 'g4', 's4', 'n4', 'g42', 'n42'],
+                     large=320)
+    # the enumeration takes seconds on the 32-point instances of the
+    # branch-and-bound corpus: quick runs 1 of every 12, seed-rotated
+    # (thorough: all)
+    res = []
+    for sh in out:
+        if 'corpus' in sh:
+            lo = sh['corpus'][0] + seed % 12
+            sh = dict(sh, corpus=[lo, min(lo + 1, sh['corpus'][1])])
+        res.append(sh)
+    return res
 
 
 def cases(shard):
